@@ -220,10 +220,12 @@ def _enumerate_gates(circuit: Circuit) -> tp.Dict[Label, int]:
     result: tp.Dict[Label, int] = dict()
     for input_label in circuit.inputs:
         result[input_label] = len(result)
-    for gate_label, gate_ in circuit.gates.items():
+    # operands must get smaller identifiers than their users (the decoder relies on
+    # it), whatever the storage order of the gates is.
+    for gate_ in circuit.top_sort(inverse=True):
         if gate_.gate_type == gate.INPUT:
             continue
-        result[gate_label] = len(result)
+        result[gate_.label] = len(result)
     return result
 
 
